@@ -6,6 +6,8 @@
 //! The accepted Rust subset is deliberately small and closed; anything outside it is an
 //! error naming the item, which the check treats as a broken tie.
 
+mod audit;
+
 use std::collections::{BTreeMap, BTreeSet};
 use std::fmt::Write as _;
 use std::fs;
@@ -1705,6 +1707,7 @@ fn main() {
     for (name, gen) in [
         ("Geometry.lean", gen_geometry as fn(&Path) -> R<String>),
         ("Tables.lean", gen_tables as fn(&Path) -> R<String>),
+        ("Audit.lean", audit::gen_audit as fn(&Path) -> R<String>),
     ] {
         match gen(src) {
             Ok(text) => match write_if_changed(&out.join(name), &text) {
